@@ -1,7 +1,7 @@
 /- Line-protocol front end of the metadata state machine model (C06, see
 harness/server/zz_verif_c06_test.go for the protocol).
 
-  c06 begin | c06 pre <op> | c06 apply <index> <L|R> <op> | c06 snapshot | c06 restart
+  c06 begin | c06 pre <op> | c06 apply <index> <L|R> <op> | c06 snapshot | c06 restart | c06 install
   c06 finish <index> | c06 state | c06 obs | c06 cfg
 
 Answers: `ok <state>` / `ok true|false` / `err <enum>` / `dead` (after a failed apply: the real
@@ -128,6 +128,13 @@ def metaStep (st : MetaSt) (toks : List String) : MetaSt × String :=
       match restoreErr sn with
       | some _ => ({ st with dead := true }, "err restore")
       | none => let s := restore cfg { disk := cur.disk } sn; ({ st with cur := some s }, "ok " ++ dump true s)
+  | ["install"] =>
+    match st.snap with
+    | none => (st, "bad-op")
+    | some sn =>
+      match restoreErr sn, installErr cur sn with
+      | none, none => let s := install cfg cur sn; ({ st with cur := some s }, "ok " ++ dump true s)
+      | _, _ => ({ st with dead := true }, "err restore")
   | ["finish", idx] =>
     match idx.toNat? with
     | some idx => let s := finish cfg cur idx; ({ st with cur := some s }, "ok " ++ dump true s)
